@@ -880,7 +880,7 @@ impl Engine for Front {
             self.c09_giant(w);
             return;
         }
-        if prop == "C07" && idx % 40 == 7 {
+        if prop == "C07" && idx % w.tier.pick(40, 600) == 7 {
             let texts: Vec<String> = (0..BATCH).map(|sub| input_for(&prop, w.tier, w.seed, idx, sub).1).filter(|t| t.len() <= super::stress::MAX_BYTES).collect();
             self.c07_streams(w, &texts, idx % 80 == 47);
         }
